@@ -22,6 +22,7 @@ type SolveResult struct {
 	Output  string
 	File    string
 	Tried   []string
+	Part    string // failing conjunct, when the goal was split
 }
 
 // specDefs renders the definitions of all spec functions reachable from the used set.
@@ -141,6 +142,60 @@ func (e *Enc) prelude() string {
 	return sb.String()
 }
 
+// splitAnd returns the top-level conjuncts of an SMT term (recursively through nested "and").
+func splitAnd(t Term) []Term {
+	s := t.S
+	if !strings.HasPrefix(s, "(and ") {
+		return []Term{t}
+	}
+	var out []Term
+	depth := 0
+	start := -1
+	body := s[5 : len(s)-1]
+	for i := 0; i < len(body); i++ {
+		c := body[i]
+		switch {
+		case c == '(':
+			if depth == 0 && start < 0 {
+				start = i
+			}
+			depth++
+		case c == ')':
+			depth--
+			if depth == 0 && start >= 0 {
+				out = append(out, splitAnd(Term{body[start : i+1], SBool})...)
+				start = -1
+			}
+		case c == ' ':
+			if depth == 0 && start >= 0 {
+				out = append(out, Term{body[start:i], SBool})
+				start = -1
+			}
+		default:
+			if depth == 0 && start < 0 {
+				start = i
+			}
+		}
+	}
+	if start >= 0 {
+		out = append(out, Term{body[start:], SBool})
+	}
+	return out
+}
+
+func buildQueryGoal(prelude string, ob *Obligation, goal Term) string {
+	var sb strings.Builder
+	sb.WriteString("; obligation " + ob.Name + " in " + ob.Fn + "\n")
+	sb.WriteString(prelude)
+	for _, p := range ob.PC {
+		sb.WriteString("(assert ")
+		sb.WriteString(p.S)
+		sb.WriteString(")\n")
+	}
+	sb.WriteString("(assert (not " + goal.S + "))\n(check-sat)\n")
+	return sb.String()
+}
+
 func buildQuery(e *Enc, prelude string, ob *Obligation) string {
 	var sb strings.Builder
 	sb.WriteString("; obligation " + ob.Name + " in " + ob.Fn + "\n")
@@ -242,6 +297,7 @@ type SolveOpts struct {
 func discharge(results []*FuncResult, opts SolveOpts) {
 	type job struct {
 		ob      *Obligation
+		prelude string
 		query   string
 		base    string
 	}
@@ -270,7 +326,7 @@ func discharge(results []*FuncResult, opts SolveOpts) {
 				continue
 			}
 			n++
-			jobs = append(jobs, job{ob: ob, query: buildQuery(fr.Enc, prelude, ob), base: fmt.Sprintf("q%04d_%s", n, sanitize(shortName(fr.Fn)+"_"+ob.Name))})
+			jobs = append(jobs, job{ob: ob, prelude: prelude, query: buildQuery(fr.Enc, prelude, ob), base: fmt.Sprintf("q%04d_%s", n, sanitize(shortName(fr.Fn)+"_"+ob.Name))})
 		}
 	}
 	var wg sync.WaitGroup
@@ -281,10 +337,43 @@ func discharge(results []*FuncResult, opts SolveOpts) {
 		go func(j job) {
 			defer wg.Done()
 			defer func() { <-sem }()
-			j.ob.Result = solveOne(j.query, j.base, j.ob.Cover, opts)
+			j.ob.Result = solveOb(j.ob, j.prelude, j.query, j.base, opts)
 		}(j)
 	}
 	wg.Wait()
+}
+
+// solveOb: try the whole goal quickly; if that is not decided and the goal is a conjunction,
+// discharge the conjuncts one by one (valid iff every conjunct is valid).
+func solveOb(ob *Obligation, prelude, query, base string, opts SolveOpts) *SolveResult {
+	if ob.Cover {
+		return solveOne(query, base, true, opts)
+	}
+	parts := splitAnd(ob.Goal)
+	if len(parts) <= 1 {
+		return solveOne(query, base, false, opts)
+	}
+	quick := opts
+	if quick.Timeout > 3 {
+		quick.Timeout = 3
+	}
+	r := solveOne(query, base, false, quick)
+	if r.Status == "unsat" {
+		return r
+	}
+	total := 0.0
+	var tried []string
+	for i, p := range parts {
+		pr := solveOne(buildQueryGoal(prelude, ob, p), fmt.Sprintf("%s.c%d", base, i), false, opts)
+		total += pr.Seconds
+		if pr.Status != "unsat" {
+			pr.Tried = append(tried, pr.Tried...)
+			pr.Part = fmt.Sprintf("conjunct %d/%d: %s", i+1, len(parts), truncate(p.S, 400))
+			return pr
+		}
+		tried = append(tried, fmt.Sprintf("c%d:%s", i, pr.Solver))
+	}
+	return &SolveResult{Status: "unsat", Solver: fmt.Sprintf("split(%d)", len(parts)), Seconds: total, Tried: tried}
 }
 
 func solveOne(query, base string, cover bool, opts SolveOpts) *SolveResult {
